@@ -279,3 +279,38 @@ theorem loopB_pinned_diverges (c : Cfg) (hc : c.skipCond = BExp.pinned) :
     exact ih _ (PS.next_atEof c s hs)
 
 end PubModel.C08
+
+namespace PubModel.C08
+
+/-! ## `parseListEntries` without its `InError` break diverges at EOF -/
+
+theorem parseValue_atEof (c : Cfg) (n : Nat) (s : PS) (hs : s.AtEof) :
+    parseValue c (n + 1) s = .ok (s.errHere c "jsonx.expectOperand") := by
+  have hk := hs.1
+  unfold parseValue
+  simp [PS.see, PS.seeOp, hk]
+
+theorem entrySep_atEof_jail (c : Cfg) (s : PS) (hs : s.AtEof) (hj : s.pe.jail = true) (o : Char) :
+    s.entrySep c o = s := by
+  simp [PS.entrySep, PS.seeOp, PS.expectOp, PS.inError, hs.1, hj]
+
+theorem listLoop_no_break_diverges (c : Cfg) (hl : c.listBreaks = false) (n : Nat) :
+    ∀ k s, s.AtEof → loopB (fun s => !s.seeOp ']') (listBody c (parseValue c n)) k s = .outOfFuel := by
+  intro k
+  induction k with
+  | zero => intro s _; rfl
+  | succ k ih =>
+    intro s hs
+    have hcond : (!s.seeOp ']') = true := by simp [PS.seeOp, hs.1]
+    unfold loopB
+    simp only [hcond, if_true]
+    cases n with
+    | zero => simp [listBody, parseValue, Res.bind]
+    | succ m =>
+      have hs' : (s.errHere c "jsonx.expectOperand").AtEof := hs
+      have hj : (s.errHere c "jsonx.expectOperand").pe.jail = true := PS.errAt_jail c s _ _
+      simp only [listBody, parseValue_atEof c m s hs, Res.bind, entrySep_atEof_jail c _ hs' hj, hl,
+        Bool.false_and, Bool.not_false]
+      exact ih _ hs'
+
+end PubModel.C08
